@@ -173,6 +173,34 @@ func c15ExactFirst(c *Check, a *Anchors) {
 				return true
 			})
 		}
+		// ... and, when the scan lives in a helper, the variables of GetTask's group that are assigned from a call of it
+		if aliasLoop != nil {
+			var scanFn *FuncBody
+			for _, g := range c.P.groupOf(gt, 2) {
+				if g != gt && within(aliasLoop, g.Body) {
+					scanFn = g
+				}
+			}
+			if scanFn != nil {
+				for _, g := range c.P.groupOf(gt, 2) {
+					ginf := g.Info()
+					inspectBody(g.Body, func(m ast.Node) bool {
+						if as, ok := m.(*ast.AssignStmt); ok && len(as.Rhs) == 1 {
+							if call, ok := ast.Unparen(as.Rhs[0]).(*ast.CallExpr); ok && a.is(callee(ginf, call), scanFn) {
+								for _, l := range as.Lhs {
+									if v := varOf(ginf, l); v != nil {
+										if _, isSlice := v.Type().Underlying().(*types.Slice); isSlice {
+											hitVars[v] = true
+										}
+									}
+								}
+							}
+						}
+						return true
+					})
+				}
+			}
+		}
 		lenOf := func(e ast.Expr) bool {
 			call, ok := ast.Unparen(e).(*ast.CallExpr)
 			if !ok || !isBuiltin(info, call, "len") || len(call.Args) != 1 {
@@ -499,8 +527,8 @@ func c15PatternLiteral(c *Check, a *Anchors) {
 	f.Run()
 	n := 0
 	for i, r := range f.Returns {
-		if len(r.Results) != 2 || exprStr(r.Results[0]) != "true" {
-			continue
+		if len(r.Results) != 2 || constText(info, r.Results[0]) == "false" {
+			continue // (every return that is not the constant false can be a positive answer)
 		}
 		n++
 		st := f.At[r]
